@@ -25,8 +25,9 @@ func VerifyG2(pk48, msg, sig96 []byte) (bool, error) {
 	return sig.Verify(pk, msg), nil
 }
 
-// Suite is the plain (unseeded) kyber suite used only for public-value arithmetic in oracles.
-var Suite = bls12381.NewBLS12381Suite(nil)
+// NewSuite returns a fresh plain (unseeded) kyber suite; the pairing engine inside a suite is not
+// goroutine-safe, so oracles never share one.
+func NewSuite() *bls12381.Suite { return bls12381.NewBLS12381Suite(nil).(*bls12381.Suite) }
 
 func PointBytes(p kyber.Point) []byte {
 	b, err := p.MarshalBinary()
